@@ -23,6 +23,10 @@ var (
 	hexVersionPattern = regexp.MustCompile(`^(\d+)\.(\d+)\.(\d+)(?:-([a-zA-Z0-9\-\.]+))?(?:\+([a-zA-Z0-9\-\.]+))?$`)
 	// Partial version for pessimistic operator: MAJOR.MINOR
 	hexPartialVersionPattern = regexp.MustCompile(`^(\d+)\.(\d+)$`)
+
+	// numericIdentifier matches pre-release identifiers that SemVer treats as numbers: digits only.
+	// Identifiers such as "-5" are alphanumeric although strconv.Atoi would accept them.
+	numericIdentifier = regexp.MustCompile(`^[0-9]+$`)
 )
 
 func (e *Ecosystem) NewVersion(version string) (*Version, error) {
@@ -182,16 +186,18 @@ func comparePreReleaseIdentifier(id1, id2 string) int {
 	// Try to parse as integers first
 	num1, err1 := strconv.Atoi(id1)
 	num2, err2 := strconv.Atoi(id2)
+	isNum1 := err1 == nil && numericIdentifier.MatchString(id1)
+	isNum2 := err2 == nil && numericIdentifier.MatchString(id2)
 
-	if err1 == nil && err2 == nil {
+	if isNum1 && isNum2 {
 		// Both are numbers, compare numerically
 		return compareInt(num1, num2)
 	}
-	if err1 == nil {
+	if isNum1 {
 		// id1 is number, id2 is not: number < string
 		return -1
 	}
-	if err2 == nil {
+	if isNum2 {
 		// id2 is number, id1 is not: string > number
 		return 1
 	}
